@@ -541,7 +541,19 @@ func (c *Ctx) c13DWR() {
 	// registration in sm.New
 	if nf := c.P.Func("diam/sm", "New"); nf != nil {
 		found := false
+		// the registrations of New, and of the set-up helpers it calls unconditionally on the machine it builds
+		var regSites []ssa.CallInstruction
 		for _, ci := range flow.CallInstrs(nf) {
+			regSites = append(regSites, ci)
+			if hlp := flow.StaticCallee(ci); hlp != nil && hlp.Blocks != nil && c.P.IsLibrary(hlp) && pkgOf(hlp).Path() == pkgSM && len(flow.Guards(ci)) == 0 {
+				for _, cj := range flow.CallInstrs(hlp) {
+					if len(flow.Guards(cj)) == 0 {
+						regSites = append(regSites, cj)
+					}
+				}
+			}
+		}
+		for _, ci := range regSites {
 			if _, ok := isMuxRegistration(ci); !ok {
 				continue
 			}
